@@ -12,6 +12,14 @@
 #   C  state     — escaped code inside / after everything that sets compile-time state: unescaped and unbuffered code,
 #                  multi-statement code, mixin definitions and call blocks ending in unescaped code, interpolated tags
 #                  (`#{tg}` + block, nested, before / after / around code nodes).
+#   D  partners  — the compiler decides PER EXPRESSION SHAPE whether the escaper is appended, so the hostile string meets
+#                  every operator and every literal kind as its PARTNER in every carrier position: logical defaults and
+#                  guards with a number / boolean / null / string / array / object literal, a comparison, arithmetic, a
+#                  negation or harmless data of every kind on the other side (`x || 0`, `x || false`, `x || null`,
+#                  `n > 0 && x`, `true && x`, `x != null && x`, `!x || x`), sums with such partners on either side, such
+#                  expressions under `+`, `?:`, array literals, call arguments, mixin arguments and attributes, `= e` and
+#                  `#{e}`.  Streams A-C draw their carriers from the same menu (with a smaller share of partners).
+#                  Which operand is printed is decided by the data (n, z, e, nl, p are harmless and equal in both renders).
 # Interpolated tags and try/catch have no constructor in the pug model: such cases are OPAQUE — sent to the engine as raw
 # AST JSON, passed to the judge as stand-ins for the domain test, judged by the oracle alone.
 import json
@@ -142,11 +150,128 @@ G_DEEP = [('dot', ('dot', ('id', b"hn"), b"a"), b"b"), ('dot', ('idx', ('id', b"
           ('idx', ('dot', ('id', b"hn"), b"l"), ('num', 0))]
 
 
+# partners: every literal kind and the harmless data of every kind (n integer, z = 0, e = "", nl = null, p boolean, s string)
+PLAIN_LEAVES = [('num', 0), ('num', 0), ('num', 1), ('num', 7), ('num', -1), ('bool', True), ('bool', False), ('bool', False),
+                ('null',), ('null',), ('str', b""), ('str', b"x"), ('str', b"a b"), ('arr', []), ('arr', [('num', 1)]),
+                ('obj', []), ('numf', b"0.5"), ('id', b"n"), ('id', b"n"), ('id', b"z"), ('id', b"e"), ('id', b"nl"),
+                ('id', b"p"), ('id', b"s")]
+
+
+def no_leading_obj(e):
+    """an expression statement cannot start with `{` (that is a block): the left-most operand, when it is an object
+    literal, is replaced by an array literal"""
+    k = e[0]
+    if k == 'obj':
+        return ('arr', [])
+    if k == 'bin':
+        return (k, e[1], no_leading_obj(e[2]), e[3])
+    if k in ('cond', 'dot', 'idx', 'call'):
+        return (k, no_leading_obj(e[1])) + e[2:]
+    return e
+
+
+def hostile_expr(e):
+    return any(v.startswith(b"h") or v == b"attributes" for v in tgen.expr_vars(e))
+
+
+def partner_kind(e):
+    """what the partner of the hostile operand is: the literal kind, the harmless data name, or the operator class"""
+    k = e[0]
+    if k == 'num':
+        return 'number'
+    if k == 'numf':
+        return 'fraction'
+    if k in ('bool', 'null', 'str', 'arr', 'obj', 'tpl'):
+        return {'bool': 'boolean', 'null': 'null', 'str': 'string', 'arr': 'array', 'obj': 'object', 'tpl': 'template'}[k]
+    if k == 'id':
+        return 'data:' + e[1].decode()
+    if k == 'un':
+        return 'negation' if e[1] == '!' else 'unary'
+    if k == 'bin':
+        return ('logical' if e[1] in ('||', '&&') else 'arithmetic' if e[1] in ('+', '-', '*', '/', '%') else 'comparison')
+    return k
+
+
+def partner_pairs(e, acc, top=True):
+    """every place in e where an operator that yields / joins its operands has ONE hostile-carrying operand and one
+    harmless partner: acc['<op> <partner kind>'] += 1 ('top:' prefix when it is the printed expression itself)"""
+    if not isinstance(e, tuple):
+        return
+    k = e[0]
+    pairs = []
+    if k == 'bin' and e[1] in ('||', '&&', '+'):
+        pairs = [(e[1], e[2], e[3]), (e[1], e[3], e[2])]
+    elif k == 'cond':
+        pairs = [('?:', e[2], e[3]), ('?:', e[3], e[2]), ('?:test', e[2], e[1]), ('?:test', e[3], e[1])]
+    elif k == 'arr' and len(e[1]) == 2:
+        pairs = [('[,]', e[1][0], e[1][1]), ('[,]', e[1][1], e[1][0])]
+    for op, a, b in pairs:
+        if hostile_expr(a) and not hostile_expr(b):
+            key = ('top: ' if top else '') + op + ' ' + partner_kind(b)
+            acc[key] = acc.get(key, 0) + 1
+    for x in e[1:]:
+        if isinstance(x, tuple):
+            partner_pairs(x, acc, False)
+        elif isinstance(x, list):
+            for y in x:
+                partner_pairs(y, acc, False)
+
+
+def sub_exprs(e):
+    if isinstance(e, tuple):
+        yield e
+        for x in e[1:]:
+            if isinstance(x, tuple):
+                for y in sub_exprs(x):
+                    yield y
+            elif isinstance(x, list):
+                for z in x:
+                    for y in sub_exprs(z):
+                        yield y
+
+
+def printed_exprs(nodes):
+    """the expressions an escaped construct prints or hands on: escaped code, mixin arguments and attributes"""
+    for n in walk(nodes):
+        if n[0] == 'code' and n[2]:
+            for st in n[1]:
+                if st[0] == 'expr':
+                    yield st[1]
+                elif st[0] == 'vars':
+                    for d in st[1]:
+                        if d[2] is not None:
+                            yield d[2]
+        elif n[0] == 'call':
+            for a in n[2]:
+                yield a
+            for a in n[3]:
+                yield a[1]
+        elif n[0] == 'trycode':
+            for st in n[1] + n[3]:
+                if st[0] == 'expr':
+                    yield st[1]
+
+
+LITERAL_PARTNERS = ('number', 'boolean', 'null', 'fraction', 'comparison', 'negation', 'arithmetic')
+
+
+def tpl_safe(e):
+    if isinstance(e, tuple):
+        if e == ('str', b""):
+            return ('str', b"q")
+        if e and e[0] == 'obj':
+            return ('arr', [])
+        return tuple(tpl_safe(x) for x in e)
+    if isinstance(e, list):
+        return [tpl_safe(x) for x in e]
+    return e
+
+
 class Gen:
     """streams B and C: node lists over a scope (the hostile-carrying expressions visible at this point)"""
 
-    def __init__(self, prop, rng, caught):
-        self.p, self.rng, self.caught, self.n = prop, rng, caught, 0
+    def __init__(self, prop, rng, caught, style=None):
+        self.p, self.rng, self.caught, self.n, self.style = prop, rng, caught, 0, style
         self.defs = []          # mixin definitions made so far: (name, params)
 
     def fresh(self, prefix):
@@ -154,7 +279,9 @@ class Gen:
         return prefix + str(self.n).encode()
 
     def carrier(self, bases, depth):
-        return self.p.carrier(None, self.rng, depth, bases)
+        if self.style == 'partners':
+            depth = max(depth, 1)
+        return self.p.carrier(self.style, self.rng, depth, bases)
 
     def esc_code(self, bases):
         r = self.rng
@@ -297,22 +424,34 @@ class C04(CoreProp):
     prop_module = "Props.C04"
     prop_file = "Props/C04.v"
     coq_targets = ["Props/C04.vo", "Run/Judge_C04.vo", "Props/Tables.vo"]
-    sizes = {"quick": 700, "thorough": 16000}
+    sizes = {"quick": 700, "thorough": 14000}
     design_ref = "DESIGN.md section 6/C04"
     keep_datas = True
     rule = ("ONE template rendered twice by the real engine (fresh engine each): with a hostile string h (all five special "
             "characters, template delimiters, back-ticks, multi-byte) at every h-named data position — h, ho.k, ha[0], hn.a.b, "
             "hn.l[0], hl[0].k and as the KEY of the map hm — and with a fresh harmless marker m at the same positions (as the key "
-            "too); oracle on Go's own outputs: out_h = replace_all m (escape h) out_m. Three streams. A (35%) carriers: tags, text, "
+            "too); oracle on Go's own outputs: out_h = replace_all m (escape h) out_m. Four streams. A (27%) carriers: tags, text, "
             "if, each around escaped code (`= e`, `#{e}`) whose expression is a string-transparent shape (variable, member, index, "
             "concatenation, conditional, logical default / guard, slice(0) / join results, template literal, array literal, nested), "
-            "30% with the same expression text unescaped in a never-taken branch. B (35%) routes: `each v, k in hm` printing the KEY "
+            "30% with the same expression text unescaped in a never-taken branch. B (27%) routes: `each v, k in hm` printing the KEY "
             "variable (`= k`, carriers around k) and the value, loops with index over arrays, over arrays of maps, over maps and "
             "nested members, variables declared from data (`- var hx = e` then `= hx`; `var hx = e; hx` in one escaped node), mixins "
             "whose bodies print their parameters, members of `attributes` and the block, called with carrier arguments, attributes "
-            "and blocks, try/catch code printing a member in the try part. C (30%) compile-time state: the same escaped code "
+            "and blocks, try/catch code printing a member in the try part. C (23%) compile-time state: the same escaped code "
             "inside / after unescaped code (`!= s`), unbuffered declarations, multi-statement code, mixin definitions ending in "
             "unescaped code, and interpolated tags `#{tg}` (16% of C's node draws; nested, around and between code nodes). "
+            "D (23%) partners — the compiler decides per expression SHAPE whether the escaper is appended, so the carrier meets "
+            "every operator and every literal kind as its partner: `c || P`, `P || c`, `P && c`, `c && P`, `c + P`, `P + c`, "
+            "`P ? c : P`, `[c, P]` where c carries the hostile string and the partner P is harmless: a number, fraction, boolean, "
+            "null, string, array or object literal, harmless data of every kind (n integer, z = 0, e = '', nl = null, p boolean, "
+            "s string), a comparison (< > <= >= == === != !== of data and literals, joined by || / &&), arithmetic (+ - * %), a "
+            "negation, a logical or conditional expression of such; the carrier as its own test (`c ? c : P`, `c != null && c`, "
+            "`c == nl ? P : c`, `!c || c`, `!!c && c`); a partner as call argument (`c.slice(z || 0)`, `c.slice(0 && P)`); each of "
+            "these again under `+ P`, `P ? _ : 's'`, `[_]`, `|| P`, `&& P` (30%), as printed expression of `= e` and `#{e}`, "
+            "in tags / if / each (half of D: stream A's node generator) and as argument / attribute of mixin calls, around loop "
+            "keys and values, declared variables (other half: stream B's). Which operand is printed is decided by the data; the "
+            "oracle is the same substitution identity. Streams A-C draw 22% of their carrier levels from the same menu; evidence "
+            "counter distribution.operator_x_partner_pairs lists operator x partner kind ('top:' = the printed expression itself). "
             "8% of B and C cases are CAUGHT-route cases: h is one of < > & \" , m is one byte, and a try/catch code node prints the "
             "text of the exception JSON.parse throws on the data `1`+h. Templates with an interpolated tag or try/catch (no "
             "constructor in the pug model) are OPAQUE: raw AST JSON to the engine, stand-ins to the judge's domain test, verdict by "
@@ -328,9 +467,16 @@ class C04(CoreProp):
         "the pug front end is not available offline: ASTs are generated (mustEscape / buffer / isInline flags set by the generator; "
         "try/catch code is sent with mustEscape = true)",
         "caught route: encoding/json's syntax error `invalid character 'c' after top-level value` quotes the bytes < > & \" verbatim",
+        "which shapes are string-transparent is the judge's executable predicate transp (Run/Judge_C04.v), part of dom04 and so "
+        "checked on every case: harmless expressions (no h-name, any operator); + || && ?: ! over transparent operands; == / != "
+        "with null; members, literal indices, template / array literals, slice(<denotes 0>) and join(<literal>). It relies on two "
+        "facts about the engine that no theorem states: the truth value of a non-empty string does not depend on its content, and "
+        "`number + string` reads the string with strconv.ParseFloat (0 for a non-numeral)",
     ]
     assumptions = [
         "the hostile string and the marker are non-empty and have no white space at their edges (template literals trim theirs)",
+        "the hostile string and the marker each hold a byte that occurs in no Go numeral (dom04 not_numeral): `7 + h` prints the "
+        "same number in both renders; the data names z and nl are bound to 0 and null (dom04 z_zero, nl_nil)",
         "the marker is special-free, does not occur in the emitted template text nor in the harmless data",
         "naming rule of the domain (checked by dom04 on every case): only h-named top-level data, loop variables, mixin parameters, "
         "declared variables and `attributes` carry the hostile string; unescaped / unbuffered code prints expressions without such "
@@ -339,6 +485,10 @@ class C04(CoreProp):
         "the tag name of an interpolated tag is harmless data (equal in both renders)",
     ]
     not_yet_proved = [
+        "the PARTNER class is proved for the compiler model only: C04_value_escaped / C04_operator_escaped (Proofs/C04ShapeProofs.v) "
+        "say that every value expression — every binary operator with any operands, number / boolean / null literals and "
+        "comparisons included — is lowered to one action ending in the escaper; that the real renderExpression does the same for "
+        "each operator x partner kind is checked per case (streams A-D), not proved",
         "C04_marker beyond the proved fragment. PROVED as theorems for all programs, data and bytes of h (Props/C04.v "
         "C04_tfree_eval_independent, C04_fragment_marker_spec, C04_fragment_marker, C04_fragment_marker_subst_spec, "
         "C04_fragment_marker_subst, C04_marker_subst_segments; Proofs/C04MarkerProofs.v): on the control fragment of Pug/Lower.v "
@@ -361,15 +511,105 @@ class C04(CoreProp):
     ]
 
     # ---------------------------------------------------------------- expressions
+    def plain(self, rng, depth=1):
+        """a PARTNER: a harmless expression (no h-name) of any literal kind, over any operator and the harmless data
+        n (an integer), z (0), e (""), nl (null), p (a boolean), s (a string)"""
+        k = rng.random()
+        if depth <= 0 or k < 0.5:
+            return rng.choice(PLAIN_LEAVES)
+        sub = lambda: self.plain(rng, depth - 1)
+        num = lambda: rng.choice([('id', b"n"), ('id', b"n"), ('id', b"z"), ('num', rng.choice([0, 1, 2, 5]))])
+        if k < 0.72:
+            op = rng.choice(['<', '>', '<=', '>=', '==', '===', '!=', '!=='])
+            if rng.random() < 0.25:
+                return ('bin', op, ('id', b"s"), ('str', rng.choice([b"ok", b"s1", b"zz"])))
+            c = ('bin', op, num(), ('num', rng.choice([0, 1, 3, 4, 5])))
+            if rng.random() < 0.2:
+                c = ('bin', rng.choice(['||', '&&']), c, ('bin', rng.choice(['<', '>']), ('id', b"n"), ('num', rng.choice([0, 4]))))
+            return c
+        if k < 0.82:
+            return ('bin', rng.choice(['+', '-', '*', '%']), num(), ('num', rng.choice([1, 2, 3])))
+        if k < 0.9:
+            return ('un', '!', rng.choice([('id', b"p"), ('id', b"n"), ('id', b"e"), ('id', b"s"), sub()]))
+        if k < 0.97:
+            return ('bin', rng.choice(['||', '&&']), sub(), sub())
+        return ('cond', ('id', b"p"), sub(), sub())
+
+    def partnered(self, rng, sub, depth):
+        """the hostile-carrying expression `sub()` next to a partner, under an operator that yields one of its operands
+        (|| && ?:), their concatenation (+), or a collection of them"""
+        P = lambda: self.plain(rng, rng.choice([0, 0, 1, 1, 2]))
+
+        def Pn():
+            # the literal `null` as an operand of + or as a test is compiled to nothing (the action then fails alike in
+            # both renders, or the template does not load): mostly the data null instead
+            e = P()
+            return ('id', b"nl") if e == ('null',) and rng.random() < 0.8 else e
+        nul = lambda: ('null',) if rng.random() < 0.15 else ('id', b"nl")
+        k = rng.random()
+        if k < 0.2:
+            return ('bin', '||', sub(), P())
+        if k < 0.3:
+            return ('bin', '||', P(), sub())
+        if k < 0.48:
+            return ('bin', '&&', P(), sub())
+        if k < 0.56:
+            return ('bin', '&&', sub(), P())
+        if k < 0.63:
+            return ('bin', '+', sub(), Pn())
+        if k < 0.7:
+            return ('bin', '+', Pn(), sub())
+        if k < 0.78:
+            return ('cond', Pn(), sub(), P()) if rng.random() < 0.5 else ('cond', Pn(), P(), sub())
+        if k < 0.84:
+            # the carrier is its own test: `x ? x : 0`, `x != null && x`, `x == null ? 0 : x`, `!x || x`, `!!x && x`
+            x = sub()
+            form = rng.choice(['self', 'nn', 'eqn', 'not', 'notnot'])
+            if form == 'self':
+                return ('cond', x, x, P())
+            if form == 'nn':
+                c = ('bin', rng.choice(['!=', '!==']), x, nul())
+                return ('bin', '&&', c if rng.random() < 0.7 else (c[0], c[1], c[3], c[2]), x)
+            if form == 'eqn':
+                return ('cond', ('bin', rng.choice(['==', '===']), x, nul()), P(), x)
+            if form == 'not':
+                return ('bin', '||', ('un', '!', x), x)
+            return ('bin', '&&', ('un', '!', ('un', '!', x)), x)
+        if k < 0.92:
+            items = [sub(), P()]
+            rng.shuffle(items)
+            return ('arr', items)
+        # a partner as a call argument: slice from a position that denotes 0
+        zero = rng.choice([('id', b"z"), ('bin', '||', ('id', b"z"), ('num', 0)), ('bin', '&&', ('num', 0), P()),
+                           ('bin', '||', ('num', 0), ('id', b"z"))])
+        return ('call', ('dot', rng.choice(G_BASES[:3]), b"slice"), [zero])
+
     def carrier(self, g, rng, depth, bases=None):
-        """a transparent expression carrying one of the hostile positions"""
+        """a transparent expression carrying one of the hostile positions; g == 'partners': stream D, where the top of
+        the expression is a partnered form (other streams: 22% at every level)"""
+        return no_leading_obj(self._carrier(g, rng, depth, bases))
+
+    def _carrier(self, g, rng, depth, bases=None):
         bases = bases or G_BASES
         base = rng.choice(bases)
         if depth <= 0:
             return base
         k = rng.random()
-        sub = lambda: self.carrier(g, rng, depth - 1, bases)
+        sub = lambda: self._carrier(None if g == 'partners' and rng.random() < 0.5 else g, rng, depth - 1, bases)
         lit = lambda: ('str', rng.choice([b"x", b"-", b" ", b"pre:", b"a b", b"", b"."]) or b"q")
+        if g == 'partners' or k < 0.22:
+            e = self.partnered(rng, sub, depth)
+            if g == 'partners' and rng.random() < 0.3:
+                # ... under a further operator: (x || 0) + 1, p ? (x || 0) : 'none', [n > 0 && x]
+                w = rng.random()
+                P = self.plain(rng, rng.choice([0, 1]))
+                if P == ('null',):
+                    P = ('id', b"nl")
+                e = (('bin', '+', e, P) if w < 0.3 else ('bin', '+', P, e) if w < 0.5 else
+                     ('cond', self.plain(rng, 1) if w < 0.66 else ('id', b"nl"), e, lit()) if w < 0.7 else ('arr', [e]) if w < 0.85 else
+                     ('bin', rng.choice(['||', '&&']), e, P))
+            return e
+        k = (k - 0.22) / 0.78
         if k < 0.18:
             return ('bin', '+', lit(), sub())
         if k < 0.32:
@@ -382,7 +622,9 @@ class C04(CoreProp):
         if k < 0.58:
             return ('bin', '&&', rng.choice(bases), sub())
         if k < 0.68:
-            return ('tpl', [rng.choice([b"", b"a", b"t "]), sub(), rng.choice([b"", b"z", b" u"])])
+            # (inside `${}`: no empty string literal — the engine's clean-up of `""` in the interpolated text deletes it —
+            # and no object literal — its `}` ends the interpolation)
+            return ('tpl', [rng.choice([b"", b"a", b"t "]), tpl_safe(sub()), rng.choice([b"", b"z", b" u"])])
         if k < 0.76:
             return ('arr', [sub()] + ([lit()] if rng.random() < 0.4 else []))
         if k < 0.84:
@@ -399,7 +641,8 @@ class C04(CoreProp):
         for _ in range(rng.choice([1, 1, 2, 3])):
             k = rng.random()
             if k < 0.45 or depth <= 0:
-                out.append(('code', [('expr', self.carrier(g, rng, rng.choice([0, 1, 1, 2, 3])))], True, rng.random() < 0.7))
+                d = rng.choice([0, 1, 1, 2, 3])
+                out.append(('code', [('expr', self.carrier(g, rng, max(d, 1) if g == 'partners' else d))], True, rng.random() < 0.7))
             elif k < 0.6:
                 out.append(('text', rng.choice([b"t", b"a b", b"x:", b"<i>", b"&"])))
             elif k < 0.78:
@@ -412,8 +655,8 @@ class C04(CoreProp):
                 out.append(('each', b"h", None, ('id', b"ha"), self.nodes(g, rng, depth - 1)))
         return out
 
-    def gen_carriers(self, rng):
-        nodes = self.nodes(None, rng, rng.choice([0, 1, 2, 3]))
+    def gen_carriers(self, rng, g=None):
+        nodes = self.nodes(g, rng, rng.choice([0, 1, 2, 3]))
         if rng.random() < 0.3:
             # the SAME expression text also occurs unescaped (`!= e`) in a branch that is never taken, before or
             # after the escaped use: how one code node is compiled must not depend on another one with equal text
@@ -424,8 +667,8 @@ class C04(CoreProp):
         return nodes
 
     # ---------------------------------------------------------------- streams B and C
-    def gen_routes(self, rng, caught, mix):
-        g = Gen(self, rng, caught)
+    def gen_routes(self, rng, caught, mix, style=None):
+        g = Gen(self, rng, caught, style)
         bases = G_BASES + G_DEEP
         depth = rng.choice([1, 2, 2, 3])
         defs = []
@@ -454,15 +697,19 @@ class C04(CoreProp):
         cases = []
         for i in range(n):
             s = rng.random()
-            caught = s >= 0.35 and rng.random() < 0.08
+            caught = 0.27 <= s < 0.77 and rng.random() < 0.08
             h = rng.choice(H_CAUGHT) if caught else hostile(rng)
             if not h.strip() or h != h.strip():
                 h = b"<" + h.strip() + b">"
             m = MARK1 if caught else MARK
-            if s < 0.35:
+            if s < 0.27:
                 nodes = self.gen_carriers(rng)
+            elif s < 0.77:
+                nodes = self.gen_routes(rng, caught, MIX_B if s < 0.54 else MIX_C)
+            elif s < 0.89:
+                nodes = self.gen_carriers(rng, 'partners')
             else:
-                nodes = self.gen_routes(rng, caught, MIX_B if s < 0.70 else MIX_C)
+                nodes = self.gen_routes(rng, False, MIX_B, 'partners')
             other = rng.choice([b"x", b"ok", b"<keep>"])
             pflag = rng.random() < 0.5
             more = rng.random() < 0.3
@@ -472,6 +719,7 @@ class C04(CoreProp):
             extra = [e for e in extra if (e < h) == (e < m) and e != h]
             safe = rng.choice([b"s1", b"ok", b"<u>", b"a&b"])
             tg = rng.choice(ITAG_NAMES)
+            nval = rng.choice([0, 1, 3, 4, 5, 12, -2])
 
             def data(v):
                 hm = {v: v if hm_same else other}
@@ -479,8 +727,10 @@ class C04(CoreProp):
                     hm[e] = other
                 return {b"h": v, b"ho": {b"k": v, b"z": other}, b"ha": [v] + ([other] if more else []), b"hm": hm,
                         b"hn": {b"a": {b"b": v}, b"l": [v]}, b"hl": [{b"k": v}] + ([{b"k": other}] if more else []),
-                        b"hj": b"1" + v, b"p": pflag, b"never": False, b"s": safe, b"w": b"<i>", b"tg": tg}
-            cases.append({"nodes": ser(nodes), "datas": [ser(data(h)), ser(data(m))], "h": h.hex(), "m": m.hex()})
+                        b"hj": b"1" + v, b"p": pflag, b"never": False, b"s": safe, b"w": b"<i>", b"tg": tg,
+                        b"n": nval, b"z": 0, b"e": b"", b"nl": None}
+            stream = "A" if s < 0.27 else "B" if s < 0.54 else "C" if s < 0.77 else "D"
+            cases.append({"nodes": ser(nodes), "datas": [ser(data(h)), ser(data(m))], "h": h.hex(), "m": m.hex(), "stream": stream})
         return cases
 
     # ---------------------------------------------------------------- harness / judge formats
@@ -553,7 +803,11 @@ class C04(CoreProp):
                 "caught_route_cases": 0, "prints_map_key_variable": 0, "each_with_key": 0, "with_mixin_call": 0,
                 "mixin_call_with_attributes": 0, "prints_attributes_member": 0, "with_unescaped_or_unbuffered_code": 0,
                 "with_multi_statement_code": 0, "escaped_code_after_state_setting_code": 0, "never_taken_twin": 0,
-                "both_renders_ok": 0, "hostile_string_reaches_output": 0}
+                "both_renders_ok": 0, "hostile_string_reaches_output": 0,
+                "partner_stream_cases": 0, "logical_default_or_guard_with_non_string_partner": 0,
+                "the_same_as_printed_expression": 0, "the_same_under_plus_conditional_array_or_call": 0,
+                "carrier_is_its_own_test": 0, "slice_from_computed_zero": 0}
+        pairs = {}
         for c, o in zip(cases, obss):
             nodes = de(c["nodes"])
             h = bytes.fromhex(c["h"])
@@ -587,7 +841,25 @@ class C04(CoreProp):
             feat["with_multi_statement_code"] += any(n[0] == 'code' and len(n[1]) > 1 for n in alln)
             feat["escaped_code_after_state_setting_code"] += bool(raw) and any(n[0] == 'code' and n[2] for n in alln[raw[0]:])
             feat["never_taken_twin"] += any(n[0] == 'cond' and n[1] == ('id', b"never") for n in alln)
-        return {"node_kinds": kinds, "go_outcome_classes": classes, "features": feat}
+            feat["partner_stream_cases"] += c.get("stream") == "D"
+            mine = {}
+            for e in printed_exprs(nodes):
+                partner_pairs(e, mine)
+            for k, v in mine.items():
+                pairs[k] = pairs.get(k, 0) + v
+            logical = [k for k in mine if k.replace('top: ', '').split(' ')[0] in ('||', '&&')
+                       and k.split(' ')[-1] in LITERAL_PARTNERS]
+            feat["logical_default_or_guard_with_non_string_partner"] += bool(logical)
+            feat["the_same_as_printed_expression"] += any(k.startswith('top: ') for k in logical)
+            feat["the_same_under_plus_conditional_array_or_call"] += any(not k.startswith('top: ') for k in logical)
+            src = b" ".join(tmpl.js_src(e) for e in printed_exprs(nodes))
+            feat["carrier_is_its_own_test"] += any(
+                x[0] == 'cond' and x[1] == x[2] or x[0] == 'bin' and x[1] in ('&&', '||') and x[2][0] in ('bin', 'un')
+                and hostile_expr(x[2]) and x[2][-1] in (('null',), ('id', b"nl"), x[3]) + ((('un', '!', x[3]),) if x[2][0] == 'un' else ())
+                for e in printed_exprs(nodes) for x in sub_exprs(e))
+            feat["slice_from_computed_zero"] += b".slice(z" in src or b".slice(0 " in src
+        return {"node_kinds": kinds, "go_outcome_classes": classes, "features": feat,
+                "operator_x_partner_pairs": dict(sorted(pairs.items()))}
 
 
 PROP = C04()
